@@ -2202,12 +2202,7 @@ double BW_MidiSequencer::seek(double seconds, const double granularity)
     if(m_currentPosition.wait < 0.0)
         m_currentPosition.wait = 0.0;
 
-    if(m_atEnd)
-    {
-        this->rewind();
-        m_loopEnabled = loopFlagState;
-        return 0.0;
-    }
+    // (when the target lies in the silence after the last event, the position stays there, at the end)
 
     m_time.reset();
     m_time.delay = m_currentPosition.wait;
